@@ -5,7 +5,7 @@ real crate (dev + release); only reproducing violations are reported."""
 import json, time, itertools
 import z3
 from .executor import Program, Exec, Unsupported, PathPanic
-from .models import MODELS, uf
+from .models import MODELS, uf, deref
 from .txmodel import *
 from .values import *
 from . import concrete as C
@@ -464,6 +464,162 @@ def q_wire(env, k_in, k_out, name=None):
             return {"tx": b.tx(ctx.tx), "ops": [{"op": what}]}, 0
         discharge(env, qr, results, spec_of, request_of, f"wire {what} k_in={k_in} k_out={k_out}")
         validate_translation(env, qr, results, request_of)
+        finish(qr, ex)
+    return qr
+
+
+def q_accessors(env, k_in, k_out, name=None):
+    """C01 'every accessor reports what an independent decoder reads from the bytes': Transaction::get_size_impl, satoshis_out,
+    satoshis_in, is_coinbase_impl, get_outpoints_impl on a symbolic transaction vs the values defined by its wire serialisation
+    (size = length of the reference serialisation, totals = sums of the value fields, outpoints = wire-order txid || LE index,
+    coinbase = exactly one input with the null outpoint)."""
+    qr = QResult(name or f"accessors_k{k_in}x{k_out}")
+    P = env.P
+    b64 = lambda v: z3.BitVecVal(v, 64)
+
+    def vlen(L):
+        return z3.If(z3.ULE(L, 252), b64(1), z3.If(z3.ULE(L, 0xffff), b64(3), z3.If(z3.ULE(L, 0xffffffff), b64(5), b64(9))))
+
+    def spec_size(tx):
+        n = b64(4) + vlen(b64(len(tx.ins))) + vlen(b64(len(tx.outs))) + b64(4)
+        for i in tx.ins:
+            n = n + b64(36) + vlen(i["script_len"]) + i["script_len"] + b64(4)
+        for o in tx.outs:
+            n = n + b64(8) + vlen(o["script_len"]) + o["script_len"]
+        return n
+
+    def total(terms):
+        t = b64(0)
+        for x in terms:
+            t = t + x
+        return t
+
+    cases = [("get_size", "transaction::Transaction::get_size_impl", False, None), ("satoshis_out", "transaction::Transaction::satoshis_out", False, None),
+             ("satoshis_in", "transaction::Transaction::satoshis_in", True, None), ("is_coinbase", "transaction::Transaction::is_coinbase_impl", False, None),
+             ("outpoints", "transaction::Transaction::get_outpoints_impl", False, None)]
+    if k_in >= 1:
+        cases.append(("satoshis_in", "transaction::Transaction::satoshis_in", True, k_in - 1))   # the last input carries no value: the total is undefined
+    for what, callsite, extended, missing in cases:
+        label = f"accessor {what} k_in={k_in} k_out={k_out}" + (f" (input {missing} without a declared value)" if missing is not None else "")
+        try:
+            entry = env.fn(callsite)
+        except Unsupported as e:
+            qr.undecided.append(f"{label}: {e}")
+            continue
+        qr.cases += 1
+        ex = env.new_exec()
+
+        def setup(ex, extended=extended, missing=missing):
+            ctx = Ctx()
+            ctx.tx = SymTx(ex, ctx, k_in, k_out, extended=extended)
+            if missing is not None:
+                iv = ctx.tx.value.f[P.structs["Transaction"].index("inputs")].f[missing]
+                iv.f[P.structs["TxIn"].index("satoshis")] = none()
+            # the totals are claimed for amounts whose sum fits 64 bits (any real amount: at most 21e14 per field)
+            for o in ctx.tx.outs:
+                ctx.assumptions.append(z3.ULE(o["value"], b64(1 << 60)))
+            for i in ctx.tx.ins:
+                if "satoshis" in i:
+                    ctx.assumptions.append(z3.ULE(i["satoshis"], b64(1 << 60)))
+            return entry, [Ptr([ctx.tx.value], 0)], ctx
+        try:
+            results = ex.explore(setup)
+        except Unsupported as e:
+            qr.undecided.append(f"{label}: {e}")
+            continue
+        for r in results:
+            qr.paths += 1
+            c = r.ctx
+            tx = c.tx
+            bad, msg = None, None
+            if r.kind == "panic":
+                bad, msg = [], f"panics: {r.msg.split(' @')[0][:80]}"
+            elif r.kind != "ok":
+                qr.undecided.append(f"{label}: {r.kind} {getattr(r, 'msg', '')}"[:200])
+                continue
+            else:
+                ret = r.ret
+                try:
+                    if what == "get_size":
+                        if ret.variant != "Ok":
+                            bad, msg = [], "refuses (Err) to report the size of a serialisable transaction"
+                        else:
+                            bad, msg = [ret.f[0].t != spec_size(tx)], "the size differs from the length of the serialisation"
+                    elif what == "satoshis_out":
+                        bad, msg = [ret.t != total([o["value"] for o in tx.outs])], "the output total differs from the sum of the value fields"
+                    elif what == "satoshis_in":
+                        if missing is not None or not tx.ins:
+                            if ret.variant != "None":
+                                bad, msg = [], "reports an input total although an input has no declared value (or there is no input)"
+                        elif ret.variant != "Some":
+                            bad, msg = [], "reports no input total although every input declares its value"
+                        else:
+                            bad, msg = [ret.f[0].t != total([i["satoshis"] for i in tx.ins])], "the input total differs from the sum of the declared values"
+                    elif what == "is_coinbase":
+                        want = z3.BoolVal(False)
+                        if len(tx.ins) == 1:
+                            want = z3.And(*[b == 0 for b in tx.ins[0]["prev_tx_id"]], tx.ins[0]["vout"] == 0xffffffff)
+                        got = ret.t if isinstance(ret, Bool) else (ret.t != 0)
+                        bad, msg = [got != want], "the coinbase flag differs from 'exactly one input, with the null outpoint'"
+                    elif what == "outpoints":
+                        got = deref(ret).f
+                        if len(got) != len(tx.ins):
+                            bad, msg = [], f"returns {len(got)} outpoints for {len(tx.ins)} inputs"
+                        else:
+                            for g, i in zip(got, tx.ins):
+                                st = {}
+                                outs = SE.compare(list(r.pc), g.s, wire_outpoint(i), st)
+                                qr.queries += st.get("queries", 0)
+                                qr.solver_s += st.get("solver_s", 0.0)
+                                if any(o[0] == "unknown" for o in outs):
+                                    qr.undecided.append(f"{label}: solver unknown")
+                                if any(o[0] == "differ" for o in outs):
+                                    bad, msg = [g.s != wire_outpoint(i)], "an outpoint differs from the wire-order transaction id followed by the little-endian output index"
+                except AttributeError as e:
+                    qr.undecided.append(f"{label}: result of unexpected shape {ret!r}: {e}"[:200])
+                    continue
+            if bad is None or len(qr.violations) >= MAX_VIOLATIONS:
+                continue
+            t0 = time.time()
+            qr.queries += 1
+            m, small = small_model(list(r.pc) + getattr(c, "replay_extra", []), bad, all_len_vars(c))
+            qr.solver_s += time.time() - t0
+            if m is None:
+                continue
+            if not small:
+                qr.undecided.append(f"{label}: {msg} — counterexample not replayable within {REPLAY_CAP} bytes")
+                continue
+            b = Binder(m)
+            txj = b.tx(tx)
+            if missing is not None:
+                txj["inputs"][missing].pop("satoshis", None)
+            nop = {"get_size": "get_size", "satoshis_out": "satoshis_out", "satoshis_in": "satoshis_in", "is_coinbase": "is_coinbase", "outpoints": "outpoints"}[what]
+            req = {"tx": txj, "ops": [{"op": "to_bytes"}, {"op": nop}]}
+            ins_j, outs_j = txj["inputs"], txj["outputs"]
+            if what == "get_size":
+                want_v = None     # taken from the native serialisation below
+            elif what == "satoshis_out":
+                want_v = sum(o["value"] for o in outs_j)
+            elif what == "satoshis_in":
+                want_v = None if (missing is not None or not ins_j) else sum(i["satoshis"] for i in ins_j)
+            elif what == "is_coinbase":
+                want_v = len(ins_j) == 1 and ins_j[0]["prev_tx_id"] == "00" * 32 and ins_j[0]["vout"] == 0xffffffff
+            else:
+                want_v = [bytes(reversed(bytes.fromhex(i["prev_tx_id"]))).hex() + i["vout"].to_bytes(4, "little").hex() for i in ins_j]
+            native, reproduced = {}, False
+            for prof in ("debug", "release"):
+                out = C.Native.run(req, prof)
+                native[prof] = out[1] if len(out) > 1 else out[-1]
+                res = native[prof]
+                if what == "get_size" and len(out) > 1 and "ok" in out[0]:
+                    want_v = len(out[0]["ok"]) // 2
+                if "panic" in res or ("ok" in res and res["ok"] != want_v):
+                    reproduced = True
+            item = {"message": f"{label}: {msg}", "request": req, "op_index": 1, "expected": {"ok": want_v}, "native": native}
+            if reproduced:
+                qr.violations.append(item)
+            else:
+                qr.undecided.append(f"{label}: {msg} — SMT counterexample did not reproduce natively (expected {want_v!r}, native {json.dumps(native)[:200]})")
         finish(qr, ex)
     return qr
 
